@@ -67,8 +67,15 @@ func (r *Result) LoseAnchor(format string, a ...interface{}) {
 // RequireMin asserts a hand-confirmed minimum number of instances so that no rule passes vacuously.
 func (r *Result) RequireMin(what string, got, min int) {
 	r.Counts[what] = got
-	if got < min {
-		r.LoseAnchor("instance count for %s fell to %d (< %d confirmed by hand): anchor lost", what, got, min)
+	// min is the count confirmed by hand on the tree the rule was written for. Ordinary
+	// refactoring merges, splits and removes constructs, so the alarm is raised only when the
+	// count falls well below it (a rule that matches next to nothing passes vacuously).
+	floor := (min*6 + 9) / 10
+	if floor < 1 {
+		floor = 1
+	}
+	if got < floor {
+		r.LoseAnchor("instance count for %s fell to %d (< %d, 60%% of the %d confirmed by hand): anchor lost", what, got, floor, min)
 	}
 }
 
